@@ -322,7 +322,7 @@ Proof. intros Hc Hz Hd. pose proof (Forall_exactc_exact _ Hc) as Hl.
       rewrite fold_rquo, map_to_rat, (to_rat_qv a Ha) by exact Hr. reflexivity.
 Qed.
 
-(* the faithful model returns 0 for the reciprocal of exact zero *)
+(* "/ 0" falls under the exact-zero rule (see div_exact_zero_rule) *)
 Lemma div_zero_alone : call CDiv [NInt 0] None = RVals [NInt 0].
 Proof. reflexivity. Qed.
 
@@ -532,6 +532,8 @@ Theorem pow_exact b e : exactc b -> exactc e -> is_exact_int e = true ->
   exists v, call CPow [b; e] None = RVals [v] /\ good v (Qpower (qv b) (to_big e)).
 Proof. intros Hb He Ie Hd. pose proof Hb as [Eb Cb].
   unfold call, call_raw, pow. rewrite Eb, Ie. cbn [andb].
+  destruct (is_int0 b && (to_big e <? 0)) eqn:ZN.
+  { exfalso. apply andb_true_iff in ZN as [Z1 Z2]. apply Z.ltb_lt in Z2. apply Hd. split; assumption. }
   assert (G : forall ez, ez = to_big e ->
      exists v, map_result from_go (pow_general b ez) = RVals [v] /\ good v (Qpower (qv b) (to_big e))).
   { intros ez ->. apply pow_general_good; assumption. }
@@ -550,11 +552,11 @@ Proof. intros Hb He Ie Hd. pose proof Hb as [Eb Cb].
   - apply (G _ eq_refl).
 Qed.
 
-(* the faithful model panics where the property demands an exception *)
-Theorem pow_zero_neg_panics e : is_exact_int e = true -> to_big e < 0 ->
-  call CPow [NInt 0; e] None = RPanic.
-Proof. intros Ie N. destruct e as [z|z| |]; try discriminate; cbn [to_big] in N;
-  destruct z as [|p|p]; try lia; [destruct p|]; reflexivity. Qed.
+(* 0 to a negative exact integer power raises the divide-by-zero exception *)
+Theorem pow_zero_neg_raises e : is_exact_int e = true -> to_big e < 0 ->
+  call CPow [NInt 0; e] None = RErr EDivZero.
+Proof. intros Ie N. unfold call, call_raw, pow. rewrite Ie. cbn [is_exact is_int0 andb].
+  apply Z.ltb_lt in N. rewrite N. reflexivity. Qed.
 
 (* ------------------------------------------------------------------ *)
 (* range on machine ints: the wrap at the top of the int range *)
